@@ -827,10 +827,13 @@ func c13extra(c *strict, w *sim.World, s *sim.Step) *Viol {
 }
 
 var C13 = register(&HistProp{ID: "C13",
-	Genesis: func(t *rapid.T) *sim.GenSpec { return sim.DrawGenesis(t, sim.GenOpts{MaxAtt: 5, AbsentOpt: true}) },
+	Genesis: func(t *rapid.T) *sim.GenSpec { return sim.DrawGenesis(t, sim.GenOpts{MaxAtt: 5, AbsentOpt: true, Decoys: true}) },
 	Next: func(g *sim.G, i int) *sim.Op {
 		if op := queuedOp(g); op != nil {
 			return op
+		}
+		if i > 0 && g.Pct("restart", 3) {
+			return restartOp(g)
 		}
 		if g.Pct("attrollback", 7) {
 			// an attester-set change and a failing message that reads the set in one transaction (the
